@@ -10,9 +10,12 @@ stale data).
    query either reports staleness or answers about the structure the hull was created from.
  * `hullFacets_def`: the model's hull = facets incident to exactly one cell (`boundaryFacets`),
    closedness is C05's `closedBoundary_iff`.
-Scope: histories on ONE Tds object.  A fresh Tds moved into place (bootstrap at D+1 vertices,
-heuristic rebuild `*self = candidate`, deserialisation) restarts the counter; `gen_stale` is
-stated for chained histories only and the K2 monitor reports any observed coincidence.
+Scope: histories of calls on one triangulation value.  A fresh Tds moved into place (bootstrap at
+D+1 vertices, heuristic rebuild `*self = candidate`) used to restart the counter at 0, which breaks
+`stepOk` (the counter goes back) and let an old hull answer about a different triangulation
+(`restart_witness`; defect F14, fixed: the replacing Tds continues the sequence).  The K2 monitor
+checks `stepOk` itself after every call, and a hull created at the start of a history is queried
+after every later call.  Deserialisation creates a NEW value (no hull of it can pre-exist).
 Not proved (T3): visibility completeness (point outside ⇒ some facet visible) — needs the facet
 description of a convex hull; tied by K1 only.
 -/
@@ -84,6 +87,16 @@ theorem guarded_stale_after_change {α : Type} (g : Nat) (os : List Obs) (f : Un
   have : (g != finalGen g os) = true := by
     simp only [bne_iff_ne, ne_eq]; exact fun h => hne h.symm
   simp [this]
+
+/-- why monotonicity is needed (defect F14): if a call may move the counter BACK, a history that
+changes the structure twice can end at the creation generation, and the guard then answers.
+Remove (4 → 8), re-bootstrap with a restarted counter (8 → 4). -/
+theorem restart_witness :
+    let os : List Obs := [⟨true, 4, 8⟩, ⟨true, 8, 4⟩]
+    chained 4 os = true ∧ (∃ o ∈ os, o.changed = true) ∧ (∃ o ∈ os, stepOk o = false) ∧
+    guardedQuery 4 (finalGen 4 os) (fun _ => ()) = .answer () := by
+  refine ⟨by decide, ⟨⟨true, 4, 8⟩, by simp, rfl⟩, ⟨⟨true, 8, 4⟩, by simp, by decide⟩, ?_⟩
+  simp [guardedQuery, finalGen]
 
 /-- the hull of the model is, by definition, the set of facets incident to exactly one cell -/
 theorem hullFacets_def (K : Cx) (k : List Nat) :
